@@ -51,6 +51,11 @@ UNIT_LAWS: Dict[str, Tuple[str, str, str]] = {
     "prefix-right-associates": ("(x * q) * r", "x * (q * r)", ""),
     "prefix-undone": ("(x * q) * q**-1", "x", ""),
     "identity-prefix-right": ("x * I", "x", ""),
+    # a bare number that still carries a prefix (what km / m is measured in) on either side of / and *
+    "prefix-only-divides": ("(q * One) / y", "q * y**-1", ""),
+    "prefix-divided-by-only": ("x / (q * One)", "q**-1 * x", ""),
+    "prefix-only-left-over": ("((q * x) / x) / y", "(q * x) / (x * y)", ""),
+    "prefix-only-times": ("(q * One) * y", "q * y", ""),
 }
 DIM_LAWS = {k: v for k, v in UNIT_LAWS.items() if "prefix" not in k}
 PREFIX_LAWS = {
